@@ -56,11 +56,19 @@ type item struct {
 type Pool struct {
 	New func() any
 
-	items      []*item
+	// The bookkeeping below is harness state shared by all clients. It is only
+	// touched from //go:norace functions and only with plain loads and stores:
+	// append and copy go through runtime.growslice/slicecopy, which report to
+	// the race detector whatever the caller's annotation says.
+	buf        [maxPooled]*item
+	items      []*item // always buf[:n]
 	registered bool
 }
 
+const maxPooled = 512
+
 var (
+	poolBuf  [64]*Pool
 	pools    []*Pool
 	pcfg     PoolConfig
 	pstats   PoolStats
@@ -72,7 +80,10 @@ var (
 //go:norace
 func Reset(c PoolConfig) {
 	for _, p := range pools {
-		p.items = nil
+		for i := range p.buf {
+			p.buf[i] = nil
+		}
+		p.items = p.buf[:0]
 	}
 	pcfg = c
 	pstats = PoolStats{}
@@ -99,7 +110,10 @@ func Pooled() int {
 func (p *Pool) register() {
 	if !p.registered {
 		p.registered = true
-		pools = append(pools, p)
+		if len(pools) < len(poolBuf) {
+			poolBuf[len(pools)] = p
+			pools = poolBuf[:len(pools)+1]
+		}
 	}
 }
 
@@ -113,6 +127,8 @@ func ptrOf(v any) uintptr {
 }
 
 // foreignStep lets the other, simulated users of the pool act.
+//
+//go:norace
 func (p *Pool) foreignStep() {
 	for _, it := range p.items {
 		if it.foreign {
@@ -161,14 +177,35 @@ func scribble(v any) {
 
 // Get mirrors (*sync.Pool).Get.
 func (p *Pool) Get() any {
-	p.register()
 	simrt.Yield(simrt.YPool)
+	it := p.take()
+	if it != nil {
+		// the one edge a real pool guarantees: Put(x) happens before the Get that returns x
+		simrt.RaceAcquire(unsafe.Pointer(it.tag))
+		return it.v
+	}
+	if p.New == nil {
+		return nil
+	}
+	return p.New()
+}
+
+// take picks the pooled item to hand out, or nil for New. All pool
+// bookkeeping is harness state and hidden from the race detector.
+//
+//go:norace
+func (p *Pool) take() *item {
+	p.register()
 	note(&pstats.Gets)
-	p.foreignStep()
-	var free []int
+	if pcfg.ForeignPct > 0 {
+		p.foreignStep()
+	}
+	var freeBuf [maxPooled]int
+	free := freeBuf[:0]
 	for i, it := range p.items {
 		if !it.foreign {
-			free = append(free, i)
+			freeBuf[len(free)] = i
+			free = freeBuf[:len(free)+1]
 		}
 	}
 	if len(free) > 0 && !(pcfg.NewPct > 0 && simrt.Choose(100) >= 100-pcfg.NewPct) {
@@ -183,28 +220,40 @@ func (p *Pool) Get() any {
 			}
 		}
 		it := p.items[idx]
-		p.items = append(p.items[:idx:idx], p.items[idx+1:]...)
+		for k := idx; k+1 < len(p.items); k++ {
+			p.buf[k] = p.buf[k+1]
+		}
+		p.buf[len(p.items)-1] = nil
+		p.items = p.buf[:len(p.items)-1]
 		note(&pstats.Recycled)
-		// the one edge a real pool guarantees: Put(x) happens before the Get that returns x
-		simrt.RaceAcquire(unsafe.Pointer(it.tag))
-		return it.v
+		return it
 	}
 	note(&pstats.News)
-	if p.New == nil {
-		return nil
-	}
-	return p.New()
+	return nil
 }
 
 // Put mirrors (*sync.Pool).Put.
 func (p *Pool) Put(x any) {
-	p.register()
 	simrt.Yield(simrt.YPool)
-	note(&pstats.Puts)
 	if x == nil {
 		return
 	}
-	p.foreignStep()
+	nonEmpty := false
+	if rv := reflect.ValueOf(x); rv.Kind() == reflect.Map && rv.Len() > 0 {
+		nonEmpty = true
+	}
+	tag := new(int)
+	simrt.RaceRelease(unsafe.Pointer(tag))
+	p.store(x, tag, nonEmpty)
+}
+
+//go:norace
+func (p *Pool) store(x any, tag *int, nonEmpty bool) {
+	p.register()
+	note(&pstats.Puts)
+	if pcfg.ForeignPct > 0 {
+		p.foreignStep()
+	}
 	ptr := ptrOf(x)
 	if ptr != 0 {
 		for _, it := range p.items {
@@ -213,16 +262,19 @@ func (p *Pool) Put(x any) {
 			}
 		}
 	}
-	if rv := reflect.ValueOf(x); rv.Kind() == reflect.Map && rv.Len() > 0 {
+	if nonEmpty {
 		note(&pstats.PutNonEmpty)
 	}
 	if pcfg.DropPct > 0 && simrt.Choose(100) >= 100-pcfg.DropPct {
 		note(&pstats.Dropped)
 		return
 	}
-	it := &item{v: x, ptr: ptr, tag: new(int)}
-	simrt.RaceRelease(unsafe.Pointer(it.tag))
-	p.items = append(p.items, it)
+	if len(p.items) >= maxPooled {
+		note(&pstats.Dropped)
+		return
+	}
+	p.buf[len(p.items)] = &item{v: x, ptr: ptr, tag: tag}
+	p.items = p.buf[:len(p.items)+1]
 }
 
 // ---------------------------------------------------------------------------
